@@ -267,6 +267,28 @@ def run(ck: Check):
             break
         if found >= (6 if not thorough else 24):
             break
+    # KSWIN on integers a double cannot tell apart (2^60 + i): the window holds the VALUES it was given, and two samples that
+    # are fully separated as integers must alarm (every sub-sample is rejected: D = 1) - deterministic
+    from frouros.detectors.concept_drift import KSWIN as _KSW, KSWINConfig as _KSWC
+
+    for n_, nt_ in ((30, 10), (40, 20)):
+        vals = [2**60 + i for i in range(n_)]
+        try:
+            d = _KSW(config=_KSWC(alpha=0.01, seed=3, min_num_instances=n_, num_test_instances=nt_))
+            flags = []
+            for v in vals:
+                d.update(value=v)
+                flags.append(bool(d.drift))
+            win = [int(x) for x in d.window]
+            err = None
+        except Exception as e:  # noqa: BLE001
+            win, flags, err = None, [], repr(e)
+        ck.case(dict(detector="KSWIN", kind="integers-beyond-2^53", n=n_, num_test_instances=nt_), nontrivial=True, key=repr(("bigint", n_, nt_)))
+        ck.count("kswin_big_integer_cases")
+        if err is not None or win != vals:
+            ck.violation(dict(clause="kswin-window", detector="KSWIN", regime="integers-beyond-2^53"), dict(what="the window does not hold the last min_num_instances values as they were given (integers beyond 2^53)", n=n_, error=err, window_head=None if win is None else win[:4], expected_head=vals[:4]))
+        elif not flags[-1]:
+            ck.violation(dict(clause="kswin-rule", detector="KSWIN", regime="integers-beyond-2^53"), dict(what="the newest values exceed every older value (as integers): every sub-sample gives D = 1, p far below alpha - KSWIN must alarm at the step the window is full", n=n_, num_test_instances=nt_, alpha=0.01, stream="2^60 + i, i < n"))
     models = run_models("C06", cases, shard=30)
     corr_compare(ck, "C06", cases, impl, models)
 
